@@ -4,7 +4,7 @@
    name twice.  The last one shows that the applicability condition of CyclicVars cannot be dropped. *)
 From Coq Require Import String Ascii List Bool ZArith NArith Relations.
 Import ListNotations.
-Require Import V.Lib.PyStr V.Valid.Model V.Valid.Proofs V.Valid.Kahn V.Valid.Generated V.Valid.GenProofs.
+Require Import V.Lib.PyStr V.Valid.Model V.Valid.Proofs V.Valid.Kahn V.Valid.Generated V.Valid.GenProofs V.Valid.Scalars.
 Open Scope string_scope.
 
 (* a node name listed twice: closed, acyclic, yet the order check refuses the second occurrence *)
@@ -32,3 +32,25 @@ Theorem C11_cyclic_vars_needs_cycle_refuted :
   exists w a b, accept component_full w = true /\ accept component_full (mutate (CyclicVars None a b) w) = true.
 Proof. exists ex_wf, "g1", "g0". vm_compute. split; reflexivity. Qed.
 Print Assumptions C11_cyclic_vars_needs_cycle_refuted.
+
+(* the applicability condition of the scalar WrongType faults (wrong_rejected) cannot be dropped: a scalar of another
+   type that convert_component_types coerces is accepted - the string '3' and the bool True for the int option
+   resourceRequest.numberProcesses, the int 30 for the float option resourceManager.config.walltime, the string 'yes'
+   for the bool option workflowAttributes.aggregate.  By design of the loader (C11_scalar_coercions), not a defect *)
+Theorem C11_wrong_type_needs_rejected_refuted :
+  exists w, accept component_full w = true /\
+    forallb (fun m => accept component_full (mutate m w))
+      [WrongType 1 [KS "resourceRequest"] (KS "numberProcesses") (VStr "3");
+       WrongType 1 [KS "resourceRequest"] (KS "numberProcesses") (VBool true)] = true /\
+    conv_at [KS "resourceManager"; KS "config"; KS "walltime"] (VInt 30) = Some (VFlt "30.0") /\
+    conv_at [KS "workflowAttributes"; KS "aggregate"] (VStr "yes") = Some (VBool true).
+Proof. exists ex_wf. vm_compute. repeat split; reflexivity. Qed.
+Print Assumptions C11_wrong_type_needs_rejected_refuted.
+
+(* the exception of C11_scalar_float_rejected / C11_float_for_int_option_rejected is necessary: the repeat interval is
+   converted with int() like the other int options, but its schema also admits a float, so a float there is not a
+   wrongly typed value (it is left alone by the conversion and accepted by the schema).  Not a defect. *)
+Theorem C11_float_for_int_needs_exception_refuted :
+  exists p r, In p int_options /\ wrong_rejected component_full p (VFlt r) = false.
+Proof. exists p_repeat_interval, "2.5". split; [vm_compute; tauto | vm_compute; reflexivity]. Qed.
+Print Assumptions C11_float_for_int_needs_exception_refuted.
